@@ -83,6 +83,11 @@ def generate(rng: random.Random, tier: str, seed: int) -> dict:
                                     "run_A_failing", "build_A", "inspect_A", "run_A", "inspect_twin", "run_twin_traced", "inspect_A_extended_cli"]))
         sc["worlds"].append({"seed": rng.getrandbits(32), "tz": rng.choice(harness.TZS), "cwd": rng.choice(["", "d1", "d1/d2", "x y"]),
                              "history": hist, "rewrite": rng.getrandbits(32)})
+    if any("derive" in n for n in a["nodes"]):
+        # configurations with sweeps: the extended report (which renders sweep details) is part of many histories
+        for wd in sc["worlds"]:
+            if rng.random() < 0.3:
+                wd["history"].insert(rng.randrange(len(wd["history"]) + 1), "inspect_A_extended_cli")
     # one world in ~10 % of the configurations with a sweep: a long-lived orchestrator object serving many short-lived Pipelines
     if any("derive" in n for n in a["nodes"]) and rng.random() < 0.25:
         sc["worlds"][-1]["churn"] = rng.choice([150, 300])
